@@ -519,7 +519,7 @@ def st_reqargs(with_method=True):
                           st.text("abc/=-09", min_size=1, max_size=8), max_size=3)
     return st.fixed_dictionaries({
         "method": st.sampled_from(["GET", "POST", "PUT", "DELETE", "PATCH"]),
-        "path": st.sampled_from(["", "/", "x", "/x", "x/y/", "/x/y?z", "a b"]),
+        "path": st.sampled_from(["", "/", "x", "/x", "x/y/", "/x/y?z", "a b", "//etc/hosts", "//", "///x", "/x//y"]),
         "params": st.none() | st.dictionaries(st.text("pq &", min_size=1, max_size=3), pval, max_size=3),
         "data": st.one_of(st.none(), st.text("dé{}\"", max_size=6).map(lambda s: {"s": s}),
                           st.text("bé", max_size=5).map(lambda s: {"b": s}),
